@@ -86,24 +86,25 @@ Fixpoint step3 (fuel : nat) (s : lt) (pw : Z) (vs : list Z) : option lt :=
       end
   end.
 (* the body of "for i in range(n, 1, -1)" *)
-Definition pass (fuel : nat) (s : lt) (i : Z) : option lt :=
+(* ord: the order in which a set is iterated (pred[w], and the pops of the bucket) *)
+Definition pass (ord : list Z -> list Z) (fuel : nat) (s : lt) (i : Z) : option lt :=
   let w := vertex s i in
-  match step2 fuel s w (pred s w) with
+  match step2 fuel s w (ord (pred s w)) with
   | None => None
   | Some s1 =>
       let y := semi s1 w in
       let s2 := set_bucket s1 (vertex s1 y) (add_set (bucket s1 (vertex s1 y)) w) in
       let pw := parent s2 w in
       let s3 := set_anc s2 w pw in
-      match step3 fuel s3 pw (bucket s3 pw) with
+      match step3 fuel s3 pw (ord (bucket s3 pw)) with
       | None => None
       | Some s4 => Some (set_bucket s4 pw [])
       end
   end.
-Fixpoint passes (fuel : nat) (s : lt) (is : list Z) : option lt :=
+Fixpoint passes (ord : list Z -> list Z) (fuel : nat) (s : lt) (is : list Z) : option lt :=
   match is with
   | [] => Some s
-  | i :: r => match pass fuel s i with None => None | Some s1 => passes fuel s1 r end
+  | i :: r => match pass ord fuel s i with None => None | Some s1 => passes ord fuel s1 r end
   end.
 (* step 4 *)
 Definition step4 (s : lt) (i : Z) : lt :=
@@ -113,16 +114,18 @@ Definition step4 (s : lt) (i : Z) : lt :=
 (* i = 2 .. n *)
 Definition upto (n : Z) : list Z := map (fun k => Z.of_nat k) (seq 2 (Z.to_nat n - 1)).
 
-Definition dom_lt (g : graph) (entry : Z) : option (Z * lt) :=
+Definition dom_lt_ord (ord : list Z -> list Z) (g : graph) (entry : Z) : option (Z * lt) :=
   let fuel := S (length g) in
   match dfs fuel g entry 0 lt0 with
   | None => None
   | Some (n, s) =>
-      match passes fuel s (rev (upto n)) with
+      match passes ord fuel s (rev (upto n)) with
       | None => None
       | Some s1 => Some (n, set_dom (fold_left step4 (upto n) s1) entry (-1))
       end
   end.
+
+Definition dom_lt := dom_lt_ord (fun l => l).
 
 (* the dictionary dom_lt returns: (node, immediate dominator) for the numbered nodes in the order of their numbers *)
 Definition lt_table (g : graph) (entry : Z) : option (list (Z * option Z)) :=
@@ -132,11 +135,12 @@ Definition lt_table (g : graph) (entry : Z) : option (list (Z * option Z)) :=
   end.
 
 (* for node 0..n-1 the immediate dominator, -1 for the entry, -2 for an unreachable node (as obs_idom) *)
-Definition lt_row (g : graph) (entry : Z) : option (list Z) :=
-  match dom_lt g entry with
+Definition lt_row_ord (ord : list Z -> list Z) (g : graph) (entry : Z) : option (list Z) :=
+  match dom_lt_ord ord g entry with
   | None => None
   | Some (_, s) => Some (map (fun v => dom s v) (map Z.of_nat (seq 0 (length g))))
   end.
+Definition lt_row := lt_row_ord (fun l => l).
 Definition obs_lt (x : graph * Z) : val :=
   match lt_row (fst x) (snd x) with None => VErr E_OutOfFuel | Some l => vlistZ l end.
 (* both: what the specification says and what the algorithm computes *)
